@@ -176,10 +176,16 @@ fn gt_select_min() {
         None
     };
     let mut req = Request::new(());
+    let malformed: bool = kani::any(); // a malformed caller value is ignored: the configured timeout still applies
     let client = if has_hdr {
-        let v = [b'0' + digit, if millis { b'm' } else { b'S' }];
+        let unit = if malformed { b'x' } else if millis { b'm' } else { b'S' };
+        let v = [b'0' + digit, unit];
         req.headers_mut().insert(TIMEOUT_HDR, HeaderValue::from_bytes(&v[..]).unwrap());
-        Some(if millis { Duration::from_millis(digit as u64) } else { Duration::from_secs(digit as u64) })
+        if malformed {
+            None
+        } else {
+            Some(if millis { Duration::from_millis(digit as u64) } else { Duration::from_secs(digit as u64) })
+        }
     } else {
         None
     };
